@@ -565,8 +565,7 @@ def run(ctx):
     # 4. CPU time growth (child processes)
     timing(ctx, impl)
 
-    if not ok and len(ctx.failures) == before:
+    if not ok:
+        # reported even when the oracle also found something: a listed known finding must not mask a broken proof
         ctx.fail("proof-broken", "the Coq development for C20 no longer builds against the regenerated gen/FurlGen.v "
                  "(theorem closure props/C20.vo):\n" + tail(log), replay=dict(log=tail(log, 6000)), has_input=False)
-    elif not ok:
-        ctx.note("proof closure broken AND failures were found (reported above): " + tail(log, 600))
